@@ -123,8 +123,9 @@ func runUpsidedown(c *core.Ctx, name, kv string, path string, seed int64, nb int
 					rec.Emit("ReadBegin", map[string]any{"c": cl})
 					docs, err := sx.SearchContent(idx)
 					if err != nil {
-						fail(err)
-						return
+						rec.Emit("ReadError", map[string]any{"c": cl, "err": err.Error()})
+						time.Sleep(time.Millisecond)
+						continue
 					}
 					rec.Emit("ReadEnd", map[string]any{"c": cl, "docs": docs})
 				} else {
